@@ -111,8 +111,14 @@ impl Prop for C19 {
                 what = w;
                 let old = std::mem::take(&mut p.lines[host].sts);
                 let mut sts = vec![];
-                if rng.coin() {
-                    sts.push(St::Print(vec![Item::S("é→ß".into())], true));
+                // something in front of the fault on the same line whose listed width could be miscounted:
+                // multi-byte text, octal / hex / exponent / suffixed literals, a string assignment
+                match rng.usize(8) {
+                    0 | 1 | 2 => sts.push(St::Print(vec![Item::S("é→ß".into())], true)),
+                    3 => sts.push(St::Let("A".into(), E::Lit("&17", 15.0), false)),
+                    4 => sts.push(St::Let("A".into(), E::Bin(Box::new(E::Lit("&H1F", 31.0)), "+", Box::new(E::Lit("2D0", 2.0))), false)),
+                    5 => sts.push(St::Print(vec![Item::E(E::Lit("1E1", 10.0)), Item::S("ü".into()), Item::E(E::Lit("7%", 7.0))], true)),
+                    _ => {}
                 }
                 if matches!(st, St::If(..)) {
                     // IF swallows the rest of the line: put it last
@@ -322,6 +328,25 @@ impl Prop for C19 {
                 &format!("{}\n{}", text, dl),
             );
             return;
+        }
+        // typing the number of a line that does not exist changes nothing: the program still has its
+        // errors and still must not run
+        if what != "token-damage" {
+            let absent = (0..70u16).map(|k| 60_001 + k * 7).find(|n| !used.contains(n) && *n != missing).unwrap_or(65_000);
+            let (_, _) = run(&mut s, &absent.to_string());
+            let (st3, ev3) = run(&mut s, &cmd);
+            ctx.count("reruns_after_an_absent_line_number");
+            let printed3: Vec<&String> = ev3.iter().filter_map(|e| if let Ev::Print(p) = e { Some(p) } else { None }).filter(|p| !p.contains("READY.")).collect();
+            let errs3 = ev3.iter().filter(|e| matches!(e, Ev::Error(..))).count();
+            if st3 != Stop::Stopped || !printed3.is_empty() || errs3 == 0 {
+                ctx.violation(
+                    "executed-despite-errors",
+                    "diag:executed-after-absent-number",
+                    &format!("after typing the absent line number {} the faulty program answered {:?} with output {:?} and {} diagnostics", absent, cmd, printed3, errs3),
+                    &format!("{}\n{}\n{}", text, absent, cmd),
+                );
+                return;
+            }
         }
         if ctx.want_sample() {
             ctx.sample(&format!("{}\n--> {:?}", text, errors));
